@@ -24,7 +24,7 @@ def hx(b):
 
 class P(Prop):
     ID = "C15"
-    THEOREMS = ["C15_roundtrip_partial", "C15_F2_witness", "C15_status_line_shape", "C15_reject_unknown_status", "C15_reject_mismatched_phrase",
+    THEOREMS = ["C15_single_part_round_trip", "C15_single_part_domain", "C15_roundtrip_partial", "C15_F2_witness", "C15_status_line_shape", "C15_reject_unknown_status", "C15_reject_mismatched_phrase",
                 "C15_parse_needs_status_line", "C15_no_panic"]
     COQ_TARGETS = ["theories/Props/C15.vo", "theories/Extract.vo"]
     N_QUICK = 3000
@@ -115,6 +115,17 @@ class P(Prop):
                     j = rnd.randrange(len(b)); k2 = rnd.randrange(j, len(b)); raw = bytes(b[:j]) + bytes(b[k2:])
         known = (code, reason) in STATUSES
         return "rp %s # status=%s" % (hx(raw), "known" if known else "unknown")
+
+    def canon_model(self, line, out):
+        return out.rsplit(" dom=", 1)[0] if out and " dom=" in out else out
+
+    def model_stats(self, cases, model):
+        import collections
+        c = collections.Counter()
+        for l, m in zip(cases, model):
+            if m and " dom=" in m:
+                c["resprt:" + ("in-theorem-domain" if m.endswith("dom=1") else "outside")] += 1
+        return dict(c)
 
     def oracle(self, line, out):
         if out is None or out.startswith(("CRASH", "PANIC")) or " | PANIC" in (out or ""):
